@@ -16,6 +16,11 @@ NA = {
 }
 
 CLAIMED = {
+ 'C18': dict(
+   technique='deterministic simulation of the disk: real IniFile/TabularDataFile/TextFile code and glibc stdio over the in-memory VFS; generated INI texts (sections, key=value, comments, blank lines, LF/CRLF, with and without trailing newline, indentation) with up to 20 set() calls on existing and new sections/keys, written explicitly or by destruction, re-read by a fresh object and compared with a model, plus an order oracle on the raw bytes; generated CSV tables (numbers, empty strings, strings over , ; " \' and spaces, flushEvery) re-read cell for cell',
+   text='Seeded search over edit histories and tables on the simulated disk. Found and fixed one genuine defect (last INI line without newline lost). The file-system dimension is what the simulator adds (exact in-memory disk, reopen by fresh objects, knob-free); text shapes are input-only and ride along. Evidence, not proof.',
+   ref='DESIGN.md 2.6, 5 (C18), 5x',
+   note='Trusted: VFS stub; generator fences of DESIGN.md 5x (identifier-like keys, values without leading/trailing blanks, string cells that do not look like numbers); disk faults are exercised by C17 on the same File/TextFile layer, not repeated here.'),
  'C17': dict(
    technique='deterministic simulation of the disk: real File/TextFile/Directory code and real glibc stdio over an in-memory VFS (fopencookie streams whose read/write/seek/close callbacks are the simulated system calls, wrapped stat/rename/unlink/...), seeded operation histories per path checked against an in-memory model by fresh reader objects after every step; fault injection attached to operations (ENOSPC after k bytes, EIO at offset k, open failures, rename EXDEV forcing the copy-and-delete fallback, rename failure) with a prefix-consistency relaxation; knob-randomised line chunk',
    text='Seeded search over histories (put/write/append/stream operators/TextFile write, append, printf/copy/move/remove/BOM files) with sizes boundary-biased around the 255-byte line chunk (randomised 2..300) and the 65536-byte copy block, to 200000 bytes quick and 16 MiB thorough; LF/CRLF/lone-CR texts with and without final newline; UTF-8/UTF-16LE/BE BOM files of arbitrary scalar values incl. non-BMP. Exact oracle without faults; under faults results must be prefix-consistent. Evidence, not proof.',
